@@ -145,6 +145,26 @@ pub fn run(tier: Tier) -> i32 {
         rep.merge(acc);
     });
     rep.part(json!({"part":"encap packets","pdu_lengths":"0..=12","buffers":"0..=32"}));
+    // special label values (next to the reserved zero label, all ones, ...)
+    special_labels().par_iter().for_each(|&l| {
+        let mut acc = Acc::default();
+        for p in [0usize, 1, 5] {
+            let pd = pdu(p, 0);
+            for b in 5..=24usize {
+                for prior in [Prior::Fresh, Prior::Same] {
+                    let mut enc = build_prior(DefaultCrc {}, prior, l);
+                    let mut buf = vec![0u8; b];
+                    let out = do_encap(&mut enc, &pd, 3, 0x0800, l, &mut buf);
+                    if let Some(n) = out.len() {
+                        let it = Item { bytes: buf[..n.min(b)].to_vec(), desc: format!("encap(pdu_len={}, label={}, prior={:?}, buffer={}) -> {:?}", p, l.short(), prior, b, out), passed: Some(l), rx_last: if prior == Prior::Same { Some(l) } else { None } };
+                        check(&rep, &mut acc, &it, (p * 100 + b) as u64);
+                    }
+                }
+            }
+        }
+        rep.merge(acc);
+    });
+    rep.part(json!({"part":"special label values","labels":special_labels().iter().map(|l| l.short()).collect::<Vec<_>>()}));
     // continuation calls
     (0..=12usize).collect::<Vec<_>>().par_iter().for_each(|&p| {
         let mut acc = Acc::default();
